@@ -78,6 +78,7 @@ def run(ctx):
     ctx.assumptions += ["clock ends are written H:MM (bare numbers '9-5' only as an extra notation: 'between 8 and 10' style bare numbers are also days of month)",
                         "an end that is not after the start may be moved 12 h later or to the next day (both accepted, as the property states)"]
     ctx.mc("MC_Denote", "MC_Denote_C07_q.cfg" if ctx.quick else "MC_Denote_C07_t.cfg", timeout=3000)
+    common.random_rows_stage(ctx, "C07", post=True)
     tss = [(2019, 12, 31, 12, 43), (2020, 2, 28, 23, 30)] + ([] if ctx.quick else [(2021, 6, 15, 0, 0), (2020, 2, 29, 9, 0)])
     dates = [(2019, 12, 31), (2020, 2, 28)] + ([] if ctx.quick else [(2020, 2, 29), (2021, 4, 30)])
     cases = [{"pair": (a, b), "tss": tss, "dates": dates} for a in range(24) for b in range(24)]
